@@ -27,7 +27,7 @@ CHECKS = {
    note="Assumed: treat_output consumes one result and leaves cstep alone; prep/submit create one job; Future.done() monotone. Not decided: aiorunner concurrency, setup_config's continue condition.",
    design="5/C17"),
  "C18": dict(level="other", technique=E1,
-   text="check_config executed symbolically with interfaces/moves of symbolic length and cap/lambda_-1/quantis present or absent: every normal return satisfies Valid(cfg) from the property's own list and every rejection is a TOMLConfigError. Three defects found this way were repaired (fix: commit e5f38a1). Initialisation and fixed-point clauses not decided.",
+   text="check_config executed symbolically with interfaces/moves of symbolic length and cap/lambda_-1/quantis present or absent: every normal return satisfies Valid(cfg) from the property's own list and every rejection is a TOMLConfigError. Three defects found this way were repaired (fix: commit e5f38a1). The default-filling block of setup_config (extracted from the real AST) defines every keyword, keeps given values and is a fixed point: executed twice, the second pass changes nothing (2..4 interfaces, every present/absent combination of the five keywords). 'Every accepted configuration initialises' is not decided.",
    note="Engine sections explored for four concrete shapes; sorted(x)!=x and len(set(x))!=len(x) via their list-theoretic meaning (NaN-free floats).",
    design="5/C18"),
  "C02": dict(level="other", technique="contract-based verification by path-complete symbolic execution of the REAL method objects (inf_retis, find_blocks, quick_prob, permanent_prob, fast_glynn_perm) on numpy object arrays of z3-backed reals (symnp); postconditions = permanent-ratio closed form, discharged by z3 nlsat per path",
@@ -58,17 +58,17 @@ CHECKS = {
    text="Under the SeedSequence model the k-th job gets child key (k,), ensembles (k,i), engines (k,i,0): checked on the real pick/prep_md_items for every abstract state and random outcome, on the real restart path (set_rgen/pick_lock, several workers) with numpy generators, and by call-site obligations for every in-process draw of every engine class. Two defects repaired (fix: 421ef4c, 4c0711b).",
    note="SeedSequence model cross-checked against numpy each run; restart clause bounded grid; call-site obligation is syntactic data-flow.",
    design="5/C07"),
- "C13": dict(level="other", technique="BOUNDED stand-in (no contract within reach in the time available): exhaustive byte-cut enumeration of the real readers on small trajectories; not a deductive proof",
-   text="The real xyz_reader / lammpstrj_reader (via ReadAndProcessOnTheFly) and GromacsRunner.get_gromacs_frames are run natively over every single cut point (and all pairs for the smallest files) of small trajectories; every frame returned must be value-identical to the written frame at that position, the concatenation over all polls exactly the written frames once in order, and no call may raise. One defect found and repaired (fix: 771055c).",
-   note="Bounded: 1..3 atoms, 1..3 frames, several number formats, TRR single/double precision. Labelled bounded, never counted as proved; the E1 line model of DESIGN 5/C13 was not built.",
+ "C13": dict(level="other", technique=E1 + " over a LINE MODEL of a file that is still being written (m complete lines + at most one partial line) for the readline loops of xyz_reader and lammpstrj_reader; plus a BOUNDED stand-in (exhaustive byte-cut enumeration of all three real readers on small trajectories) that cross-checks the model byte by byte and is the only evidence for the TRR reader",
+   text="Deductive part (per atom count N, any number of frames, any cut): every frame returned by the xyz / lammpstrj loops lies completely on disk and has exactly the written values (LAMMPS: at the row of each atom id, with its box), exactly the complete frames are returned, the position handed to the next call is the end of the last returned frame, int()/float() only touch complete fields, no exception -- this refuted the original tree (ZeroDivisionError on a count line cut inside its leading blanks: fix 26883d1). Bounded part: the real xyz_reader / lammpstrj_reader (via ReadAndProcessOnTheFly) and GromacsRunner.get_gromacs_frames are run natively over every single cut point (and all pairs for the smallest files) of small trajectories; every frame returned must be value-identical to the written frame at that position, the concatenation over all polls exactly the written frames once in order, and no call may raise. Two defects found and repaired (fix: 771055c, 26883d1).",
+   note="The line model abstracts bytes into lines (a cut inside a line = number of fields + 'last field complete'); str.split/int/float are interpreted on it. N atoms concrete (xyz 1..3, lammpstrj 2..3). read_and_process_content (open/seek, try/except) assumed. Bounded part: 1..3 atoms, 1..3 frames, several number formats incl. CP2K's layout, TRR single/double precision; labelled bounded, never counted as proved; the TRR reader is bounded only.",
    design="5/C13"),
  "C19": dict(level="other", technique="bit-vector verification condition generated from the AST of swap_integer (z3); all text/regex codecs by BOUNDED native round-trip grids",
    text="swap_integer proved (all 32-bit words) to be the byte reversal, an involution, and to recover the TRR magic number; swap_endian total on its domain. g96 / xyz / lammpstrj write-read round trips, frame-k extraction, TRR decoding for both byte orders and precisions (triclinic boxes), velocity reversal per format, and mdp / LAMMPS / CP2K template edits (exact entries, idempotent, CP2K as section trees) are bounded native grids.",
    note="Only swap_integer/swap_endian are deductive; decimal-text round trips and regex editing are outside SMT reach and are bounded stand-ins.",
    design="5/C19"),
- "C12": dict(level="other", technique=E1 + "; slices of LAMMPSEngine._propagate_from extracted mechanically from the real AST; E2 for calculate_order; bounded native run for the in-process TurtleMD loop",
-   text="add_to_path's stop/success rule proved for all inputs; the LAMMPS frame-consumption loop verified with a ghost frame index for any number of ready frames (frame k evaluated with its own positions, velocities, box; stored config (file,k)) -- this refuted the original tree (fix a417b25); the LAMMPS failure statement raises iff exit code != 0 and not terminated by us; calculate_order applies the velocity-reversal flag (E2); TurtleMD loop natively (first frame, stored = recomputed orders, stop rule).",
-   note="External programs and integrators not verified. Not covered: CP2K/GROMACS/ASE loops, their process clean-up, time-reversal retrace. The reader's two lists are assumed aligned (bounded evidence under C13).",
+ "C12": dict(level="other", technique=E1 + "; the frame loops of the LAMMPS / CP2K / GROMACS / ASE drivers are slices extracted mechanically from the real _propagate_from ASTs; E2 for calculate_order; bounded native run for the in-process TurtleMD loop",
+   text="add_to_path's stop/success rule proved for all inputs; the LAMMPS frame-consumption loop verified with a ghost frame index for any number of ready frames (frame k evaluated with its own positions, velocities, box; stored config (file,k)) -- this refuted the original tree (fix a417b25); the LAMMPS failure statement raises iff exit code != 0 and not terminated by us; calculate_order applies the velocity-reversal flag (E2); EngineBase.propagate (common set-up) dumps the start point, reverses velocities iff the direction changes, starts the engine exactly once from that file / frame 0 / requested direction and returns its result; CP2K consumption loop (positions and velocities of frame k paired, one file frame per phase point, queues stay aligned) and failure statement; GROMACS frame loop (own x/v/box, velocity direction as announced by vel_rev -- refuted on the original tree: fix fa7c73d); ASE in-process loop (order computed from the arrays written as frame k); TurtleMD loop natively (first frame, stored = recomputed orders, stop rule).",
+   note="External programs and integrators not verified. Not covered: polling/waiting code around the loops, GromacsRunner, TurtleMD loop deductively, GROMACS process clean-up, time-reversal retrace. Assumed: the readers hand out frame k as their k-th item (C13), dump_frame/_reverse_velocities/_propagate_from of the concrete engines behind EngineBase.propagate.",
    design="5/C12"),
  "C14": dict(level="other", technique=E1 + "; delete_old bookkeeping as an inductive step on the real treat_output over abstract states (symnp harness); store/load by a bounded native round trip",
    text="_generate_file_names proved for all path lengths (every frame -> join(target, basename(source)) with its index, one destination per source file, only referenced files moved); the delete_old block removes exactly the oldest queued path's files and only when the queue is full, never files of a live, initial or just-replaced path (N=2,3, all queue lengths, numbering variants); PathStorage.output + load_path round trip (multi-file, reversed, revisited files, missing energies, index None) natively.",
